@@ -206,7 +206,22 @@ def _override(name):
     return fn
 
 
-def outline_class(ast, must=False, shadowed=False):
+BASE_AST = [['step', 's0'], ['if', [['p0', [['step', 's1']]]], None]]
+
+
+def outline_class(ast, must=False, shadowed=False, derived=False):
+    if derived:
+        # a work chain class derived from a concrete one (which has an outline of its own and has been used already): it runs the
+        # outline it declares itself
+        key = json.dumps(['derived', ast])
+        cls = _CACHE.get(key)
+        if cls is None:
+            base = outline_class(BASE_AST)
+            name = 'Outline_%d' % len(_CACHE)
+            cls = type(name, (base,), {'AST': ast})
+            generated.register(cls, name)
+            _CACHE[key] = cls
+        return cls
     key = json.dumps([ast, must, shadowed]) if (must or shadowed) else json.dumps(ast)
     cls = _CACHE.get(key)
     if cls is None:
